@@ -183,15 +183,20 @@ func (codecDom) Exec(a []string) string {
 			return "ok:" + wire.Enc(compactJSON(raw))
 		case "val":
 			var v store.Value
-			if err := json.Unmarshal([]byte(a[1]), &v); err != nil {
+			buf := []byte(a[1])
+			if err := json.Unmarshal(buf, &v); err != nil {
 				return "err"
 			}
+			scribble(buf) // an Unmarshaler must copy what it keeps: the caller reuses its buffer
 			return renderValue(v)
 		case "eq":
 			var v, w store.Value
-			if json.Unmarshal([]byte(a[1]), &v) != nil || json.Unmarshal([]byte(a[2]), &w) != nil {
+			b1, b2 := []byte(a[1]), []byte(a[2])
+			if json.Unmarshal(b1, &v) != nil || json.Unmarshal(b2, &w) != nil {
 				return "err"
 			}
+			scribble(b1)
+			scribble(b2)
 			// whitespace inside the raw message would make Equal depend on formatting: compare the compacted values
 			return wire.Bool(v.Equal(w))
 		case "resp":
@@ -210,4 +215,10 @@ func (codecDom) Exec(a []string) string {
 		}
 		return "bad-op"
 	})
+}
+
+func scribble(b []byte) {
+	for i := range b {
+		b[i] = '#'
+	}
 }
